@@ -5,6 +5,16 @@ HERE = os.path.dirname(os.path.dirname(os.path.abspath(__file__)))
 ALL = ["C%02d" % i for i in range(1, 21)]
 # id -> (category, engine, technique, level text, level note, design ref)
 CHECKS = {
+ "C01": ("model_checking", "E1-choice",
+   "stateless choice-tree exploration of logical xlsx sheets x legal physical encodings on the real reader vs a map model",
+   "Every sheet with <=2 (thorough 3) cells of 22 kinds in a 3x4 window at four anchors (A1 .. XFD1048576 corner) is written under every choice vector with <=2 (thorough 3) deviations over cell kinds and 10 encoding variation points, plus the full 4096-encoding product on representative sheets; each file is read through worksheet_range and worksheet_range_ref and compared cell-by-cell and bound-by-bound with the model.",
+   "Trusted: the independent writer gen/xlsx.rs (ECMA-376) and the map model; inputs outside the alphabet (relationship prefixes other than r:, extLst children, _xHHHH_ escapes) are not generated.",
+   "DESIGN.md §2 C01"),
+ "C04": ("model_checking", "E1-choice",
+   "stateless choice-tree exploration: every run-length composition of every small ods grid on the real reader vs a map model",
+   "Every grid up to 4x3/3x4 (thorough 5x4) with 1-3 (thorough 4) non-empty cells over two distinct values of 9 kinds is written in every composition of its runs of equal cells and rows (full product on small grids, <=2/3 deviations on the rest) with covered cells and trailing-empty variants up to column 16384 / row 1048576, and read back through worksheet_range.",
+   "Trusted: gen/ods.rs (ODF 1.2) and the map model. Empty-string cells and inter-element whitespace are not generated.",
+   "DESIGN.md §2 C04"),
  "C05": ("model_checking", "E2-bfs",
    "explicit-state BFS to closure over real Range<T> objects (set_value / range / constructors) against a map model",
    "Every Range state reachable inside 3x3 / 4x4 coordinate boxes (several origins incl. the sheet's far corner, 2-3 cell values, three cell types) from every constructor is enumerated to closure by calling the real methods; every state is compared with a map model through all read accessors. Exhaustive inside the box; nothing is claimed for larger rectangles except by the argument that the code has no size-dependent branches beyond 'inside / grow rows / grow cols / grow both / disjoint / overlap', all of which occur in the box.",
